@@ -125,11 +125,14 @@ impl std::ops::IndexMut<usize> for Slots {
 pub struct World {
     pub slots: Slots,
     pub model: [Option<String>; SLOTS],
+    /// global-allocator requests (outside the crate's own buffers) made inside the last real operation, when
+    /// the operation is one during which the harness itself allocates nothing
+    pub last_other_allocs: Option<u64>,
 }
 
 impl World {
     pub fn new() -> Self {
-        World { slots: Slots::new(), model: [const { None }; SLOTS] }
+        World { slots: Slots::new(), model: [const { None }; SLOTS], last_other_allocs: None }
     }
 
     /// Observe a live handle without trusting it more than necessary. Returns Err with failures
